@@ -40,20 +40,24 @@ Inductive gov : Type :=
 | GObjC (content : list (bytes * val))        (* an Object *)
 | GListC (content : list val)                 (* a List *)
 | GSliceAny (l : list gov)
-| GSliceObj (l : list (list (bytes * val)))
-| GSliceList (l : list (list val))
+| GSliceObj (l : list (option (list (bytes * val))))   (* []Object; None = a nil entry *)
+| GSliceList (l : list (option (list val)))
 | GSliceStr (l : list bytes)
 | GSliceBool (l : list bool)
 | GSliceInt (l : list Z)
 | GSliceF64 (l : list Z)
 | GMapAny (kvs : list (bytes * gov))
-| GMapObj (kvs : list (bytes * list (bytes * val)))
-| GMapList (kvs : list (bytes * list val))
+| GMapObj (kvs : list (bytes * option (list (bytes * val))))
+| GMapList (kvs : list (bytes * option (list val)))
 | GMapStr (kvs : list (bytes * bytes))
 | GMapBool (kvs : list (bytes * bool))
 | GMapInt (kvs : list (bytes * Z))
 | GMapF64 (kvs : list (bytes * Z))
 | GOther.                                     (* any other dynamic type: arrays, structs, channels, []int8, map[int]any, pointers ... *)
+
+(* a nil Object / List entry of a typed slice or map reaches parseVal as a nil interface and is stored as nil *)
+Definition oobj (o : option (list (bytes * val))) : val := match o with Some c => VObj c | None => VNil end.
+Definition olist (o : option (list val)) : val := match o with Some c => VList c | None => VNil end.
 
 (* parseVal: the stored field, as a value tree; Panic = "incompatible type" *)
 Fixpoint norm (g : gov) : res val :=
@@ -74,8 +78,8 @@ Fixpoint norm (g : gov) : res val :=
                end) l with
       | Ok vs => Ok (VList vs) | Panic => Panic
       end
-  | GSliceObj l => Ok (VList (map VObj l))
-  | GSliceList l => Ok (VList (map VList l))
+  | GSliceObj l => Ok (VList (map oobj l))
+  | GSliceList l => Ok (VList (map olist l))
   | GSliceStr l => Ok (VList (map VStr l))
   | GSliceBool l => Ok (VList (map VBool l))
   | GSliceInt l => Ok (VList (map VInt l))
@@ -88,8 +92,8 @@ Fixpoint norm (g : gov) : res val :=
                end) kvs with
       | Ok vs => Ok (VObj vs) | Panic => Panic
       end
-  | GMapObj kvs => Ok (VObj (map (fun kv => (fst kv, VObj (snd kv))) kvs))
-  | GMapList kvs => Ok (VObj (map (fun kv => (fst kv, VList (snd kv))) kvs))
+  | GMapObj kvs => Ok (VObj (map (fun kv => (fst kv, oobj (snd kv))) kvs))
+  | GMapList kvs => Ok (VObj (map (fun kv => (fst kv, olist (snd kv))) kvs))
   | GMapStr kvs => Ok (VObj (map (fun kv => (fst kv, VStr (snd kv))) kvs))
   | GMapBool kvs => Ok (VObj (map (fun kv => (fst kv, VBool (snd kv))) kvs))
   | GMapInt kvs => Ok (VObj (map (fun kv => (fst kv, VInt (snd kv))) kvs))
